@@ -152,6 +152,58 @@ class TB:
             if t["k"] == "call":
                 d = t["dest"]
                 self.defs.setdefault(d["l"], []).append(("call", bi, None, proj_key(d.get("p"))))
+        # references that denote the same referent: `_a = move/copy _b`, `_a = &mut *_b`, `_a = &*_b` (all definitions of _a).
+        # After INLINE a helper's `self` parameter is such a copy of the caller's; stores and loads through either must be
+        # seen as stores and loads of one place, so every `(*_a)...` is filed and looked up under the root local.
+        self.alias_root = {}
+        changed = True
+        rounds = 0
+        while changed and rounds < 8:
+            changed = False
+            rounds += 1
+            for l, ds in self.defs.items():
+                if l in self.alias_root or (1 <= l <= b.argc):
+                    continue
+                whole = [d for d in ds if not (d[3] and d[3][0] == "*")]
+                if not whole:
+                    continue
+                roots = set()
+                for d in whole:
+                    if d[0] != "stmt" or d[3]:
+                        roots = None
+                        break
+                    st = b.stmts(d[1])[d[2]]
+                    if st["k"] != "assign":
+                        roots = None
+                        break
+                    rv = st["rv"]
+                    src = None
+                    if rv["k"] == "use":
+                        pl = rv["op"].get("c") or rv["op"].get("m")
+                        if pl and not pl.get("p"):
+                            src = pl["l"]
+                    elif rv["k"] == "ref" and rv["pl"].get("p") == ["*"]:
+                        src = rv["pl"]["l"]
+                    if src is None:
+                        roots = None
+                        break
+                    ty = self.F.ty(b.local_ty(src)) or {}
+                    if ty.get("kind") not in ("ref", "ptr"):
+                        roots = None
+                        break
+                    roots.add(self.alias_root.get(src, src))
+                if roots and len(roots) == 1:
+                    r = next(iter(roots))
+                    if r != l:
+                        self.alias_root[l] = r
+                        changed = True
+        if self.alias_root:
+            # re-file the stores through aliases under their root
+            for l, r in self.alias_root.items():
+                moved = [d for d in self.defs.get(l, []) if d[3] and d[3][0] == "*"]
+                if moved:
+                    self.defs[l] = [d for d in self.defs[l] if d not in moved]
+                    self.defs.setdefault(r, []).extend(moved)
         # mutable borrows: `_r = &mut PLACE` / `&raw mut PLACE`
         for bi in sorted(b.reachable):
             for si, st in enumerate(b.stmts(bi)):
@@ -213,6 +265,9 @@ class TB:
     def reaching(self, L, P, at):
         """definitions of place (L,P) reaching program point at=(bb,i)"""
         b = self.body
+        root = self.alias_root
+        if P and P[0] == "*":
+            L = root.get(L, L)
         res = set()
         seen = set()
         work = [(at[0], at[1], True)]
@@ -241,7 +296,10 @@ class TB:
                 st = stmts[i]
                 if st["k"] in ("assign", "setdiscr"):
                     lhs = st["lhs"]
-                    if lhs["l"] == L and overlap(proj_key(lhs.get("p")), P):
+                    ll = lhs["l"]
+                    if lhs.get("p") and lhs["p"][0] == "*":
+                        ll = root.get(ll, ll)
+                    if ll == L and overlap(proj_key(lhs.get("p")), P):
                         res.add(("stmt", bb, i))
                         found = True
                         break
@@ -330,6 +388,8 @@ class TB:
         return False
 
     def read(self, L, P, at):
+        if P and P[0] == "*":
+            L = self.alias_root.get(L, L)
         if not self._needs_version(L, P):
             base = self.local_value(L)
             return self.project(base, P)
